@@ -358,17 +358,34 @@ class Fn:
         return self.locals[l].get("n")
 
     def place_ty(self, p):
-        """best-effort type string of a place: type of last field projection or the local type"""
+        """best-effort type string of a place: type of the last field projection (deref peels one `&`),
+        or the local's type"""
         pr = proj(p)
-        for e in reversed(pr):
-            if isinstance(e, dict) and "ty" in e:
-                return e["ty"]
-            if isinstance(e, dict) and ("dc" in e):
+        ty = self.local_ty(p["l"])
+        for e in pr:
+            if e == "*":
+                if ty is None:
+                    continue
+                t = ty.strip()
+                if t.startswith("&mut "):
+                    ty = t[5:]
+                elif t.startswith("&"):
+                    # strip a lifetime if present
+                    t = t[1:].lstrip()
+                    if t.startswith("'"):
+                        t = t.split(" ", 1)[1] if " " in t else t
+                    ty = t
+                elif t.startswith("alloc::boxed::Box<"):
+                    ty = t[len("alloc::boxed::Box<"):-1]
+                else:
+                    ty = None
+            elif isinstance(e, dict) and "ty" in e:
+                ty = e["ty"]
+            elif isinstance(e, dict) and "dc" in e:
                 continue
-            break
-        if not pr:
-            return self.local_ty(p["l"])
-        return None
+            else:
+                ty = None
+        return ty
 
     def line_of(self, bb, idx="t"):
         if idx == "t":
